@@ -17,6 +17,12 @@ def main (args : List String) : IO UInt32 := do
       let E := trialEnv t
       if decide (Pre n E) then
         for e in f E do
+          if !found then
+           if let some (what, need, av) := bufShort E e then
+            found := true
+            let (ik, bk, sk) := ((modelKeys.lookup n).getD ([], [], []))
+            let env := " ".intercalate (ik.map (fun k => s!"{showKey k}={E.i k}") ++ bk.map (fun k => s!"{showKey k}={E.b k}") ++ sk.map (fun s => s!"sizeof({s})={E.sz s}"))
+            IO.println s!"FAIL {n} trial={t} event=buffer too short for {what}: the C function touches {need} bytes, available {av} env={env}"
           if !found && !(decide e.ok) then
             found := true
             let (ik, bk, sk) := ((modelKeys.lookup n).getD ([], [], []))
